@@ -171,23 +171,28 @@ def known (d : D) (spec : Bool) (id : Nat) : Bool :=
 
 def resTypes : List String := ["common", "web", "rpc", "api_gateway", "db_sql", "cache", "mq"]
 
-/-- the optional `type=<t>` / `flag=<n>` tokens of an entry op (after the traffic type) -/
-def stripOpts : List String → String → Int → List String × String × Int
-  | t :: rest, rty, fl =>
-    if t.startsWith "type=" then stripOpts rest (t.drop 5).toString fl
+/-- the optional tokens of an entry op (after the traffic type): `type=<t>`, `flag=<n>`, and two that only tell the
+    harness HOW to pass the options — `argsplit=<k>` (two `WithArgs`, the list is their concatenation) and `dup=<letters>`
+    (batch / traffic type / flag / resource type / chain passed twice, a decoy value first: the last one counts; `a`: a
+    decoy map `{decoy: 1}` is passed to a first `WithAttachments`, which merges) -/
+def stripOpts : List String → String → Int → Bool → List String × String × Int × Bool
+  | t :: rest, rty, fl, dec =>
+    if t.startsWith "type=" then stripOpts rest (t.drop 5).toString fl dec
     else if t.startsWith "flag=" then
       match (t.drop 5).toString.toInt? with
-      | some n => stripOpts rest rty n
-      | none => (t :: rest, "bad", fl)
-    else (t :: rest, rty, fl)
-  | [], rty, fl => ([], rty, fl)
+      | some n => stripOpts rest rty n dec
+      | none => (t :: rest, "bad", fl, dec)
+    else if t.startsWith "argsplit=" then stripOpts rest rty fl dec
+    else if t.startsWith "dup=" then stripOpts rest rty fl (dec || (t.drop 4).toString.contains 'a')
+    else (t :: rest, rty, fl, dec)
+  | [], rty, fl, dec => ([], rty, fl, dec)
 
-def splitOpts (ts : List String) : List String × String × Int :=
+def splitOpts (ts : List String) : List String × String × Int × Bool :=
   match ts with
   | "entry" :: id :: res :: dir :: rest =>
-    let r := stripOpts rest "common" 0
-    ("entry" :: id :: res :: dir :: r.1, r.2.1, r.2.2)
-  | _ => (ts, "common", 0)
+    let r := stripOpts rest "common" 0 false
+    ("entry" :: id :: res :: dir :: r.1, r.2.1, r.2.2.1, r.2.2.2)
+  | _ => (ts, "common", 0, false)
 
 def parsePairs (ts : List String) : Option (List (String × String)) :=
   ts.mapM fun t => match t.splitOn "=" with
@@ -228,12 +233,29 @@ def exitOp (d : D) (spec : Bool) (id : Nat) (err : Option String) : D :=
   else apply d spec (.exit id err)
 
 def step (spec : Bool) (d : D) (ts0 : List String) (_ : String) : D × Option String :=
-  let (ts, rty, flag) := splitOpts ts0
+  let (ts, rty, flag, decoy) := splitOpts ts0
   if !resTypes.contains rty then (d, some "bad-op") else
   match ts with
   | ["clock", t] => match t.toNat? with
       | some t => ({ d with now := base + t, mono := d.mono && decide (d.now ≤ base + t) }, none)
       | none => (d, some "bad-op")
+  -- an absolute clock reading (0, tiny values: far behind the epoch): the clock steps backwards
+  | ["clock", "abs", t] => match t.toNat? with
+      | some t => ({ d with now := t, mono := d.mono && decide (d.now ≤ t) }, none)
+      | none => (d, some "bad-op")
+  -- `stat.ResetResourceNodeMap()` while entries may be in flight (`resetNodes`; the ledger restarts for the resource
+  -- nodes and the entries in flight no longer account on a resource node; the inbound account goes on)
+  | ["resetnodes"] =>
+      if spec then
+        let detach (i : Info) : Info :=
+          { i with e := { i.e with chain := { i.e.chain with pre := i.e.chain.pre.map fun p => if p = .node then .noop else p } } }
+        let drop (c : Cache) : Cache := { c with ev := c.ev.filter (·.1 = none), g := c.g.filter (·.1 = none) }
+        ({ d with created := [], ntype := [], infos := d.infos.map (fun x => (x.1, detach x.2)), cT := drop d.cT, cF := drop d.cF }, none)
+      else ({ d with pst := EntryPool.resetNodes d.pst, ntype := [] }, none)
+  -- `stat.ResourceNodeList()`
+  | ["nodes"] =>
+      let names := if spec then d.created else (d.pst.nodes.map (·.1)).eraseDups
+      (d, some (showList ((names.toArray.qsort (· < ·)).toList)))
   | ["rule", "iso", res, T] => match T.toNat? with
       | some T => ({ d with iso := (res, T) :: d.iso }, none)
       | none => (d, some "bad-op")
@@ -252,7 +274,7 @@ def step (spec : Bool) (d : D) (ts0 : List String) (_ : String) : D × Option St
         match ch with
         | none => (d, some "bad-op")
         | some ch =>
-          let atts := sortKV (singles.foldl putKV ((cmap.getD []).foldl putKV []))
+          let atts := sortKV (singles.foldl putKV ((cmap.getD []).foldl putKV (if decoy then [("decoy", "1")] else [])))
           let e : EntryOp := { id := id, res := res, inbound := dir = "in", batch := batch, args := args, chain := ch, rtype := rty,
                                flag := flag, atts := atts }
           let before := if spec then d.created.contains res else (findN d.pst.nodes res).isSome
@@ -306,6 +328,8 @@ def step (spec : Bool) (d : D) (ts0 : List String) (_ : String) : D × Option St
         let Iv := if what = "sum10" then 10000 else 1000
         if what ≠ "sum" && what ≠ "sum10" then (d, some "bad-op") else
         let k := parseKey key
+        -- once the clock has stepped backwards the code's `uint64` response times wrap: no RT figure is compared
+        if !d.mono && ev = .rt then (d, some "?") else
         if spec then
           if !d.mono then (d, some "?") else
           (d, some (twoSided d.fix (showOptNat (·.get ev) (specWindow d d.cT k Iv)) (showOptNat (·.get ev) (specWindow d d.cF k Iv))))
@@ -323,6 +347,7 @@ def step (spec : Bool) (d : D) (ts0 : List String) (_ : String) : D × Option St
         let f : Bucket → Nat := if what = "maxconc" then (·.mc) else fun b => max 1 b.minRt
         if what ≠ "maxconc" && what ≠ "minrt" then (d, some "bad-op") else
         if what = "maxconc" && (match d.soakAt with | some t => decide (d.now < t + 1000) | none => false) then (d, some "?") else
+        if what = "minrt" && !d.mono then (d, some "?") else
         if spec then
           if !d.mono then (d, some "?") else
           (d, some (twoSided d.fix (showOptNat f (specWindow d d.cT k 1000)) (showOptNat f (specWindow d d.cF k 1000))))
